@@ -1162,18 +1162,20 @@ class Model:
                 fixed = canonical_state.fixed
 
                 for alias in aliases:
+                    if alias[0] == "-":
+                        sign = -1
+                        alias = alias[1:]
+                    else:
+                        sign = 1
+
+                    # The previous alias relation is looked up by the variable's own name: a
+                    # canonical variable of a previous pass may have become a negative alias.
                     if (
                         len(old_alias_relation.aliases(alias)) > 1
                         and alias not in old_alias_relation.canonical_variables
                     ):
                         # We already handled this alias in a previous pass of `detect_aliases`
                         continue
-
-                    if alias[0] == "-":
-                        sign = -1
-                        alias = alias[1:]
-                    else:
-                        sign = 1
 
                     alias_state = all_states[alias]
 
